@@ -150,7 +150,7 @@ func decide(cfg solveCfg, v *Verdict) {
 	} else {
 		a, t, el := runSolver("z3-new", v.File, cfg.quickT)
 		record(a, "z3-new", el, t)
-		if a != "unsat" && a != "sat" {
+		if a != "unsat" && a != "sat" && !expectSat {
 			// race the other two
 			type r struct {
 				ans, solver, text string
